@@ -221,6 +221,13 @@ def evaluate(obs):
             viol.append(V(f'{x.label}: Ctrl-C in the with-block, but result() raised {x.exc!r}', sym='kbi-wrong-error', **mech))
         if njobs >= 2 or obs.world.director.raised or obs.cancel_events:
             nontrivial = True
+    for e in obs.events:
+        if e['kind'] in ('pp.late_result', 'pp.early_result'):
+            stats['late_results'] = stats.get('late_results', 0) + 1
+            if not e['done']:
+                viol.append(V(f'{e["label"]}: a result() call (waiting from the start, or made after the failure / cancellation had been recorded) came back ({e["outcome"]}) '
+                              f'while the download was not done: {e["jobs_left"]} job(s) unaccounted, temporary files {e["temps"]}',
+                              sym='result-before-done'))
     if getattr(obs, 'live_threads', None):
         viol.append(V(f'submitter/worker threads still alive after exit: {obs.live_threads}', sym='workers-survive'))
     if obs.dirwatch:
